@@ -349,6 +349,15 @@ KittyOK(m, resp) ==
   /\ Included(m.cfg.term, ReqKitty, "kitty", resp)
   /\ m.cfg.term.kid = 31 /\ m.cfg.term.kmsg = MsgOK
 
+\* frames of the caller operations, by name
+CallerFrame(name) ==
+  CASE name = "colors" -> Frame("colors", "c_start")
+    [] name = "namever" -> Frame("namever", "n_start")
+    [] name = "cellsize" -> Frame("cellsize", "s_size")
+    [] name = "kitty" -> Frame("kitty", "k_start")
+    [] name = "iterm2" -> Frame("iterm2", "i_start")
+    [] name = "auto" -> Frame("auto", "a_start")
+
 \* one internal (non system call) step of the top frame
 Internal(m) ==
   LET f == Top(m) IN
@@ -413,6 +422,12 @@ Internal(m) ==
          IF m.nvValid THEN SetTop(m, [f EXCEPT !.pc = "i_chk"]) ELSE Push(m, "i_chk", Frame("namever", "n_start"))
     [] f.pc = "i_chk" ->
          Return([m EXCEPT !.val = [NoVal EXCEPT !.flag = ITerm2Support(m.nvName, m.nvVer)]], <<>>, TRUE)
+    \* history: disable_queries(); op(); enable_queries(); op()  (f.more = the operation).
+    \* enable_queries() discards whatever was learnt while queries were disabled: the second call
+    \* starts from cold caches and must report what the terminal says
+    [] f.pc = "h_start" -> Push([m EXCEPT !.cfg.enabled = FALSE], "h_mid", CallerFrame(f.more))
+    [] f.pc = "h_mid" -> Push([m EXCEPT !.cfg.enabled = TRUE, !.nvValid = FALSE, !.val = NoVal], "h_end", CallerFrame(f.more))
+    [] f.pc = "h_end" -> Return(m, m.rb, m.rnone)
     [] f.pc = "a_start" -> Push(m, "a_k", Frame("kitty", "k_start"))
     [] f.pc = "a_k" ->
          IF m.val.flag THEN Return([m EXCEPT !.val = [NoVal EXCEPT !.style = "kitty"]], <<>>, TRUE)
@@ -482,6 +497,7 @@ OpFrame(op) ==
     [] op.name = "query" -> QueryFrame(op.req, op.more, op.tmo)
     [] op.name = "read" -> ReadFrame(op.more, op.tmo, op.min, op.echo)
     [] op.name = "draw" -> DrawFrame(op.echo, op.hide, op.nbody)
+    [] op.name = "history" -> [Frame("history", "h_start") EXCEPT !.more = op.more]
 Start(cfg, op) == Norm(NewMachine(cfg, OpFrame(op)))
 
 \* what the operation must report when every supported reply arrives in time
@@ -507,6 +523,9 @@ ExpectedVal(opname, enabled, swap, t, win, ioctlFails) ==
     [] opname = "iterm2" -> [NoVal EXCEPT !.flag = ITerm2Support(name, ver)]
     [] opname = "auto" -> [NoVal EXCEPT !.style = AutoStyle(name, ver, kok)]
     [] OTHER -> NoVal
+
+\* the operation whose value a run reports
+EffName(op) == IF op.name = "history" THEN op.more ELSE op.name
 
 NoOp == [name |-> "", more |-> "always", tmo |-> TNone, min |-> 0, echo |-> FALSE, req |-> <<>>,
          hide |-> FALSE, nbody |-> 0]
